@@ -13,7 +13,8 @@ def seeded():
     sens = {}
     p = os.path.join(HOME, "selftest", "sensitivity.json")
     if os.path.exists(p):
-        for row in json.load(open(p)):
+        rows = json.load(open(p))
+        for row in rows:
             sens[row["change"]] = row
     out.append("Each change below was written by a fresh sub-agent that saw only the text of one property and a scratch")
     out.append("worktree of the repository. For each I confirmed in that worktree that the pinned suite still passes")
@@ -31,6 +32,16 @@ def seeded():
         if missed:
             t[1] += 1
             t[2].append(m["name"])
+    if sens:
+        bad = [r for r in rows if r["expected"] != r["observed"]]
+        deep = [r for r in rows if r["depth"] != "quick"]
+        cpath = os.path.join(HOME, "selftest", "sensitivity.commit")
+        commit = open(cpath).read().strip() if os.path.exists(cpath) else "?"
+        out.append("Last full run of the sensitivity self-test (`./check selftest sensitivity`, /verif at commit %s): %d changes "
+                   "(change x check pairs; %d seeded changes, %d reverted fixes), %d not as expected, %d needed the deeper search (60000 runs / 300 s) "
+                   "instead of the quick command." % (commit, len(rows), sum(1 for r in sens if r.startswith("seeded/")),
+                                                     sum(1 for r in sens if r.startswith("mutants/")), len(bad), len(deep)))
+        out.append("")
     out.append("| round | changes | missed by the property's check at first evaluation | all caught now |")
     out.append("|---|---|---|---|")
     for rnd in sorted(rounds):
